@@ -182,6 +182,11 @@ def gen_geo_case(rnd, want_auto=None, argtypes=True, coordapi=True):
             lon = cm + dl
             if abs(lon - cm) > MAXDL:
                 continue
+            if not (-180.0 <= lon < 180.0):
+                # the zone's central meridian lies across the +-180 meridian from the point: the longitude difference is
+                # taken modulo 360 (the projection formulas are periodic in it)
+                lon = (lon + 180.0) % 360.0 - 180.0
+                kind = 'across-antimeridian'
         if -180.0 <= lon < 180.0:
             break
     else:
@@ -293,7 +298,7 @@ def in_c01_domain(case, latf, lonf):
         return False
     if case['zone'] != 0:
         cm = central_meridian(case['prj'], case['zone'])
-        if abs(lonf - cm) > MAXDL:
+        if abs(core.wrap180(lonf - cm)) > MAXDL:
             return False
     else:
         # ISG has only ten zones: the outer end of its coverage has no neighbouring zone, and the property
@@ -369,6 +374,9 @@ def judge_forward(ns, ctx, case, aspects):
         return res
     cm = central_meridian(case['prj'], zone)
     dl = lonf - cm
+    if case['zone'] != 0 and abs(dl) > 180.0:
+        dl = core.wrap180(dl)
+        ctx.count('across_antimeridian_cases')
     bucket_geo(ctx, case, latf, dl)
     x, y, k, gam = tm.forward(latf, dl, a, invf, k0)
     # --- hemisphere / false northing ---
@@ -418,7 +426,7 @@ def judge_forward(ns, ctx, case, aspects):
         lat2, lon2, psf2, conv2 = inv
         if 'RT' in aspects:
             ctx.count('roundtrip_geo')
-            arc = math.hypot(lat2 - latf, (lon2 - lonf) * math.cos(math.radians(latf)))
+            arc = math.hypot(lat2 - latf, core.wrap180(lon2 - lonf) * math.cos(math.radians(latf)))
             if not ctx.ratio('C02.geo-roundtrip-arc', arc, TOL_ARC):
                 ctx.violation('geo-roundtrip', case, {'lat': latf, 'lon': lonf, 'back': [lat2, lon2], 'arc_deg': arc})
         if 'KI' in aspects:
